@@ -669,6 +669,12 @@ pub fn run(ctx: &Ctx) -> Outcome {
     out.set("txn_listener_histories_executed", st.executions);
     let n_l = part_l(&mut out);
     out.set("teardown_behind_parked_transfers_cases", n_l);
+    // ---- part U: the LISTENER side (scripted client, link flows for a handle the application has not accepted yet)
+    let (u_exec, u_states) = crate::c07_lsn::part_u(ctx, deadline + Duration::from_secs(120), &mut out);
+    executions += u_exec;
+    states += u_states;
+    transitions += crate::c07_lsn::last_transitions();
+    truncated |= out.coverage.get("listener_side_complete") == Some(&json!(false));
     let t_note = format!("; part T (listener with transactions, scripted client): histories of depth {t_depth} over {} events, the session state probed after every event", T_ALPHABET.len());
     out.set("states", states.max(1));
     out.set("transitions", transitions.max(1));
@@ -687,6 +693,9 @@ fn replay(p: &std::path::Path, mut out: Outcome) -> Outcome {
     let s = std::fs::read_to_string(p).unwrap_or_default();
     let j: serde_json::Value = serde_json::from_str(&s).unwrap_or_default();
     let r = &j["replay"];
+    if crate::c07_lsn::replay(r, &mut out) {
+        return out;
+    }
     if r["part"] == "T" {
         let h: Vec<usize> = r["events"].as_array().map(|a| a.iter().filter_map(|v| v.as_u64()).map(|i| i as usize % T_ALPHABET.len()).collect()).unwrap_or_default();
         let o = run_txn_history(&h);
